@@ -135,8 +135,16 @@ WsAllLegal(inp) == \A i \in 1..Len(inp) : inp[i][1] = "ws" => WsLegal(inp, i)
 StripWs(inp) == SelectSeq(inp, LAMBDA x : x[1] # "ws")
 
 PInit == [pos |-> 1, vals |-> <<>>, ops |-> <<>>, mode |-> "operand", status |-> "run",
-          needList |-> FALSE, err |-> <<>>]
-Err(st) == [st EXCEPT !.status = "syntax"]
+          needList |-> FALSE, err |-> <<>>, errAt |-> 0]
+\* a syntax error; errAt = index of the offending token (the first token that cannot continue a viable prefix)
+ErrAt(st, k) == [st EXCEPT !.status = "syntax", !.errAt = st.pos + k]
+Err(st) == ErrAt(st, 0)
+\* tokens may carry a trailing mark "w": a whitespace token stood before them (only module Diag marks tokens)
+BaseLen(k) == IF k \in {"id", "lit"} THEN 3 ELSE IF k = "op" THEN 2 ELSE 1
+HasWsMark(tok) == Len(tok) > BaseLen(tok[1])
+\* what may follow a function call anywhere in the grammar (the parser reduces a call - and checks the function
+\* table - only once it has seen such a token): a binary operator, ")", ",", whitespace, or the end of the input
+FollowKinds == {"op", ")", ",", "eof"}
 FErr(st, e) == [st EXCEPT !.status = "function", !.err = e]
 Adv(st, n) == [st EXCEPT !.pos = @ + n]
 IsOpFrame(f) == f[1] \in {"bin", "pre"}
@@ -155,9 +163,12 @@ ReduceWhile(st, p) == IF Len(st.ops) > 0 /\ IsOpFrame(Top(st.ops)) /\ FramePrec(
 ReduceNamed(st) == IF Len(st.ops) > 0 /\ Top(st.ops)[1] = "named"
                    THEN [st EXCEPT !.ops = Pop(@), !.vals = Pop(@) \o <<Named(Top(st.ops)[2], Top(st.vals))>>]
                    ELSE st
-CloseCall(st, id, n) ==
-   LET chk == CallCheck(id, n) IN
-   IF chk[1] = "ok"
+CloseCall(st, id, n, inp) ==
+   LET chk == CallCheck(id, n)
+       nx == IF st.pos + 1 <= Len(inp) THEN inp[st.pos + 1] ELSE <<"eof">> IN
+   IF nx[1] = "poison" /\ ~HasWsMark(nx) THEN [st EXCEPT !.status = "token"]     \* the next token cannot be lexed
+   ELSE IF nx[1] \notin FollowKinds /\ ~HasWsMark(nx) THEN ErrAt(st, 1)          \* not a lookahead of the call reduction
+   ELSE IF chk[1] = "ok"
    THEN Adv([st EXCEPT !.ops = Pop(@), !.vals = PopN(@, n) \o <<Call(id, LastN(st.vals, n))>>, !.mode = "operator"], 1)
    ELSE FErr(st, chk)
 
@@ -175,7 +186,7 @@ Step(st, inp) ==
              [] tok[1] = "(" -> Adv([st EXCEPT !.ops = Append(@, <<"grp", 0, st.needList>>), !.needList = FALSE], 1)
              [] OTHER -> Err(st) )
     [] st.mode = "callstart" ->                       \* right after  f(
-         IF tok[1] = ")" THEN CloseCall(st, Top(st.ops)[2], 0)
+         IF tok[1] = ")" THEN CloseCall(st, Top(st.ops)[2], 0, inp)
          ELSE IF tok[1] = "id" /\ nxt[1] = "="
               THEN Adv([st EXCEPT !.ops = Pop(@) \o << <<"call", Top(st.ops)[2], 0, "named">>, <<"named", <<"Id", tok[2], tok[3]>> >> >>,
                                   !.mode = "operand"], 2)
@@ -183,7 +194,7 @@ Step(st, inp) ==
     [] st.mode = "nameditem" ->                       \* after a comma between named parameters
          IF tok[1] = "id" /\ nxt[1] = "="
          THEN Adv([st EXCEPT !.ops = Append(@, <<"named", <<"Id", tok[2], tok[3]>> >>), !.mode = "operand"], 2)
-         ELSE Err(st)
+         ELSE IF tok[1] = "id" THEN ErrAt(st, 1) ELSE Err(st)
     [] st.mode = "path" ->                            \* just shifted a path segment
          IF tok[1] = "/" THEN
             IF nxt[1] = "id" THEN Adv([st EXCEPT !.vals = Pop(@) \o <<Attr(Top(st.vals), nxt[3])>>], 2)
@@ -192,18 +203,18 @@ Step(st, inp) ==
                IF a[1] = ")" THEN
                     IF nxt[1] = "any"
                     THEN Adv([st EXCEPT !.vals = Pop(@) \o <<Coll(Top(st.vals), "any", None)>>, !.mode = "operator"], 4)
-                    ELSE Err(st)
+                    ELSE ErrAt(st, 3)
                ELSE IF a[1] = "id" /\ b[1] = ":"
                     THEN Adv([st EXCEPT !.ops = Append(@, <<"lam", nxt[1], <<"Id", a[2], a[3]>> >>), !.mode = "operand"], 5)
-                    ELSE Err(st)
-            ELSE Err(st)
+                    ELSE IF a[1] = "id" THEN ErrAt(st, 4) ELSE ErrAt(st, 3)
+            ELSE IF nxt[1] \in {"any", "all"} THEN ErrAt(st, 2) ELSE ErrAt(st, 1)
          ELSE [st EXCEPT !.mode = "operator"]
     [] st.mode = "items" ->                           \* after a comma in a list / positional call
          LET f == Top(st.ops) IN
          IF tok[1] = ")" THEN
             IF f[1] = "grp" /\ f[2] = 1
             THEN Adv([st EXCEPT !.ops = Pop(@), !.vals = Pop(@) \o <<Lst(<<Top(st.vals)>>)>>, !.mode = "operator"], 1)
-            ELSE IF f[1] = "call" /\ f[3] = 1 THEN CloseCall(st, f[2], 1)
+            ELSE IF f[1] = "call" /\ f[3] = 1 THEN CloseCall(st, f[2], 1, inp)
             ELSE Err(st)
          ELSE [st EXCEPT !.mode = "operand"]
     [] st.mode = "operator" ->                        \* a complete operand is on top of vals
@@ -229,7 +240,7 @@ Step(st, inp) ==
                           ELSE Adv([r EXCEPT !.ops = Pop(@),
                                              !.vals = PopN(@, f[2] + 1) \o <<Lst(LastN(r.vals, f[2] + 1))>>,
                                              !.mode = "operator"], 1)
-                       ELSE IF f[1] = "call" THEN CloseCall(r, f[2], f[3] + 1)
+                       ELSE IF f[1] = "call" THEN CloseCall(r, f[2], f[3] + 1, inp)
                        ELSE IF f[1] = "lam" THEN
                           Adv([r EXCEPT !.ops = Pop(@),
                                         !.vals = PopN(@, 2) \o <<Coll(r.vals[Len(r.vals) - 1], f[2], Lam(f[3], Top(r.vals)))>>,
